@@ -26,7 +26,7 @@ func writeManifest(verifDir string) {
 		Technique  string         `json:"technique"`
 	}
 	var checks []check
-	var na []map[string]string
+	na := []map[string]string{}
 	ids := append([]string(nil), allProps...)
 	sort.Strings(ids)
 	for _, id := range ids {
